@@ -67,6 +67,8 @@ class HistoryRunner:
         self.ds = self.store.ds
         self.storage = self.store.storage
         self.path = path
+        self.tmp = tmp
+        self.other, self.other_n = None, 0
         self.on_stmt = None      # callback(stmt)
         self.writer = self._writer()
         self.writer.set_trace_callback(self._trace)
@@ -103,6 +105,23 @@ class HistoryRunner:
         ds = self.ds
         kind = op["op"]
         b = op.get("b")
+        if kind == "other":
+            # something happens in ANOTHER lazily-committing sqlite store (its own file) of the same process; it is no
+            # operation of this history: nothing of this store changes, is flushed or gets any younger by it
+            what = op.get("what", "insert")
+            if self.other is None or what == "reopen":
+                if self.other is not None:
+                    self.other.close(remove=False)
+                self.other = Store("sqlite", self.tmp, path=self.path + ".other.db")
+                if "o" not in self.other.ds.buckets():
+                    self.other.ds.create_bucket("o", type="t", client="c", hostname="h")
+            ob = self.other.ds["o"]
+            if what == "insert":
+                self.other_n += 1
+                ob.insert(mk_event(dict(ts=10**15 + self.other_n * 1000, dur=0, data={"uid": -self.other_n})))
+            elif what == "read":
+                ob.get(1)
+            return dict(kind="other", what=what)
         if kind == "fail":
             # an operation the store must refuse; whatever it raises, it must not undo earlier acknowledged writes
             what = op["what"]
@@ -206,6 +225,9 @@ class HistoryRunner:
         except Exception:  # noqa: BLE001
             pass
         self.store.close(remove=remove)
+        if self.other is not None:
+            self.other.close(remove=True)
+            self.other = None
 
 
 def observer_state(path, backend, timeout=0.2):
@@ -223,7 +245,7 @@ def observer_state(path, backend, timeout=0.2):
 
 
 def remove_db(path):
-    for suf in ("", "-wal", "-shm", "-journal"):
+    for suf in ("", "-wal", "-shm", "-journal", ".other.db", ".other.db-wal", ".other.db-shm"):
         try:
             os.unlink(path + suf)
         except FileNotFoundError:
